@@ -74,6 +74,7 @@ def gen_world(rng, tier, *, min_species=2, max_species=5, allow_small_refs=True,
                           for kind, idx in items)
         resid = 99999 - n_res_total + 1
     atomid = 1
+    gapped = resid < 90000 and rng.random() < 0.3
     share = rng.random() < 0.25          # numbering per complex / ion pair: neighbours of DIFFERENT species may share a number
     prev_key = None
     for kind, idx in items:
@@ -96,11 +97,22 @@ def gen_world(rng, tier, *, min_species=2, max_species=5, allow_small_refs=True,
         if rng.random() < 0.5:      # a deformed conformation
             pos = pos + np.array([gen.rvec(rng, 0.03) for _ in range(n)])
         pos = gen.round3(pos)
-        ls, nres = gen.gro_atom_lines(sp, pos, resid, atomid)
+        nres0 = len(set(zip(sp["resnames"], sp["resids"])))
+        rl = None
+        if gapped and nres0 >= 2 and rng.random() < 0.5:
+            # residue numbers with gaps INSIDE one molecule (a chain cut out of a larger structure keeps its numbering)
+            rl, cur_ = [], resid
+            for _k in range(nres0):
+                rl.append(cur_)
+                cur_ += rng.choice([1, 2, 2, 7])
+        ls, nres = gen.gro_atom_lines(sp, pos, resid, atomid, resid_list=rl if rl is not None and len(rl) == nres0 else None)
+        if rl is not None and nres != nres0:
+            rl = None
+            ls, nres = gen.gro_atom_lines(sp, pos, resid, atomid)
         lines += ls
-        instances.append({"species": idx, "positions": pos, "resids": list(range(resid, resid + nres)),
+        instances.append({"species": idx, "positions": pos, "resids": list(range(resid, resid + nres)) if rl is None else list(rl),
                           "atomids": list(range(atomid, atomid + n))})
-        resid += nres
+        resid = resid + nres if rl is None else rl[-1] + 1
         atomid += n
     if rng.random() < 0.08:
         box = [round(rng.uniform(100, 999), 5) for _ in range(3)]      # a large system: three-digit edges, five decimals in use
